@@ -207,6 +207,7 @@ func e2eRetransWorker(args []string) error {
 
 		for i := 0; i < 3+rng.Intn(3) && !w.Died; i++ {
 			have := len(peer.Requests())
+			before := w.TeardownCount(name)
 			setCur(pick())
 
 			d, ok := nextReq(peer, have, 5*I+2*time.Second)
@@ -220,8 +221,18 @@ func e2eRetransWorker(args []string) error {
 			}
 
 			roundOver(peer, d.Seq, message.MsgTypeHeartbeatRequest, pl.k)
-			w.Retrans(name, "hb", d.Seq, txOf(peer, d.Seq, message.MsgTypeHeartbeatRequest), pl.mode, pl.k, false, p.N, p.TMs)
+			// whether the agent gave the peer up although it was answered is observed, not assumed
+			dead := w.TeardownCount(name) > before
+			w.Retrans(name, "hb", d.Seq, txOf(peer, d.Seq, message.MsgTypeHeartbeatRequest), pl.mode, pl.k, dead, p.N, p.TMs)
 			sum.Stats["round_"+pl.mode]++
+
+			if dead {
+				if withSession {
+					w.RecordLost(name, "given up although answered")
+				}
+
+				return nil
+			}
 
 			if withSession && rng.Intn(3) == 0 {
 				w.Heartbeat(name) // the peer's heartbeats are answered with the same Recovery Time Stamp
